@@ -8,6 +8,7 @@ import Hub.Model.Query
 import Hub.Model.Genesis
 import Hub.Model.Jump
 import Hub.Generated.Proto
+import Hub.SDK.ProtoJson
 /-
 Line-protocol driver of the model (core-only, runs as `lake env lean --run Main.lean` or as the
 compiled `hubmodel`).  Reads one operation per line on stdin, answers in the format of the
@@ -315,7 +316,10 @@ def probeLine (line : String) : String :=
     | "b32enc" => Hub.SDK.Bech32.runBech32Probe line
     | "b32dec" => Hub.SDK.Bech32.runBech32Probe line
     | "page" => Hub.SDK.Paginate.runPaginateProbe line
-    | "pb" => Hub.Generated.Proto.runProtoProbe line
+    -- C19: `<model bytes (hex) | err:…> ;; json=<1|0> <canonical text of the model's JSON tree>`
+    | "pb" => Hub.Generated.Proto.runProtoProbe line ++ " ;; " ++
+        Hub.SDK.ProtoJson.runJsonProbeWith Hub.SDK.ProtoJson.hubJson Hub.Generated.Proto.env line
+    | "anytypes" => Hub.SDK.ProtoJson.runAnyTypesProbe Hub.SDK.ProtoJson.hubJson line
     | "pbd" => Hub.Generated.Proto.runProtoDecodeProbe line
     | _ => "bad-case"
 
